@@ -662,7 +662,10 @@ func checkMarkers(r *ev.Run, env map[string]string, cases []markerCase, origin s
 		}
 	}
 	sh := newSharedResolver(cases, idx)
-	for _, i := range idx {
+	// Two rounds over the batch: the second asks the resolver again for
+	// markers it has by then parsed (and cached) itself.
+	for pass, order2 := 0, append(append([]int(nil), idx...), idx...); pass < len(order2); pass++ {
+		i := order2[pass]
 		c := cases[i]
 		o := sh.resolve(i)
 		r.Eval(1)
@@ -810,6 +813,7 @@ func runMarkers(r *ev.Run, env map[string]string) {
 	wg.Wait()
 	r.Gate("marker_in_domain", int64(n/2))
 	r.Gate("shared_resolver_resolutions", int64(n/2))
+	r.Count("shared_resolvers_started_cache_saturated", saturatedShared.Load())
 	r.Gate("family_members", int64(n/5))
 	r.Gate("shared_batch_groups_equal_modulo_blanks", int64(n/50))
 	r.Gate("shared_batch_groups_equal_modulo_blanks_with_both_truths", int64(n/200))
